@@ -85,6 +85,8 @@ namespace chaiscript {
     inline thread_local std::size_t parse_returns = 0;
     /// size in bytes of the input handed to the most recent top-level parse() (per thread)
     inline thread_local std::size_t last_parse_input_size = 0;
+    /// same, but only recorded while it holds the sentinel size_t(-1) the harness stores before a call: the outermost parse()
+    inline thread_local std::size_t first_parse_input_size = 0;
   } // namespace verif
 } // namespace chaiscript
 #endif
